@@ -51,22 +51,22 @@ type acLayout struct {
 }
 
 type acStats struct {
-	Version      int            `json:"version"`
-	Roots        []string       `json:"roots"`
-	RootsPresent bool           `json:"rootsPresent"`
-	Count        uint64         `json:"count"`
-	MinCid       uint64         `json:"minCid"`
-	MaxCid       uint64         `json:"maxCid"`
-	AvgCid       uint64         `json:"avgCid"`
-	MinBlk       uint64         `json:"minBlk"`
-	MaxBlk       uint64         `json:"maxBlk"`
-	AvgBlk       uint64         `json:"avgBlk"`
-	Codecs       countMap       `json:"codecs"`
-	Hashes       countMap       `json:"hashes"`
-	DataOff      uint64         `json:"dataOff"`
-	DataSize     uint64         `json:"dataSize"`
-	IdxOff       uint64         `json:"idxOff"`
-	IdxCodec     string         `json:"idxCodec"`
+	Version      int      `json:"version"`
+	Roots        []string `json:"roots"`
+	RootsPresent bool     `json:"rootsPresent"`
+	Count        uint64   `json:"count"`
+	MinCid       uint64   `json:"minCid"`
+	MaxCid       uint64   `json:"maxCid"`
+	AvgCid       uint64   `json:"avgCid"`
+	MinBlk       uint64   `json:"minBlk"`
+	MaxBlk       uint64   `json:"maxBlk"`
+	AvgBlk       uint64   `json:"avgBlk"`
+	Codecs       countMap `json:"codecs"`
+	Hashes       countMap `json:"hashes"`
+	DataOff      uint64   `json:"dataOff"`
+	DataSize     uint64   `json:"dataSize"`
+	IdxOff       uint64   `json:"idxOff"`
+	IdxCodec     string   `json:"idxCodec"`
 }
 
 // countMap: TLC prints an empty function as [].
@@ -733,6 +733,54 @@ func runStatsCase(x *acCtx, c *acCase) {
 	}
 }
 
+// runStatsLimits: "x size limits" -- under any MaxAllowedSectionSize / MaxAllowedHeaderSize, full inspection
+// succeeds iff the verifying scan under the same options does; the limits sit on and next to the largest
+// section body and the header body of the archive.
+func runStatsLimits(x *acCtx, c *acCase) {
+	if c.A.Npad > 0 {
+		return
+	}
+	file := c.A.build()
+	hdrBody := len(refHeaderBody(c.A.rootCids(), 1))
+	maxBody := 0
+	for _, id := range c.A.Secs {
+		b := alphaByID[id]
+		if n := len(b.Cid.Bytes()) + len(b.Data); n > maxBody {
+			maxBody = n
+		}
+	}
+	var sets [][2]int // {section limit, header limit}; 0 = default
+	if maxBody > 1 {
+		sets = append(sets, [2]int{maxBody - 1, 0}, [2]int{maxBody, hdrBody}, [2]int{maxBody - 1, maxBody + hdrBody})
+	}
+	sets = append(sets, [2]int{0, hdrBody - 1})
+	if maxBody > hdrBody {
+		sets = append(sets, [2]int{0, hdrBody}, [2]int{maxBody, maxBody - 1})
+	}
+	for _, l := range sets {
+		var opts []carv2.Option
+		if l[0] > 0 {
+			opts = append(opts, carv2.MaxAllowedSectionSize(uint64(l[0])))
+		}
+		if l[1] > 0 {
+			opts = append(opts, carv2.MaxAllowedHeaderSize(uint64(l[1])))
+		}
+		tag := fmt.Sprintf("inspect(section limit %d, header limit %d; largest section body %d, header body %d)", l[0], l[1], maxBody, hdrBody)
+		x.rep.eval(canon(c.A)+tag, true)
+		_, serr := verifyingScan(file, opts...)
+		rd, err := carv2.NewReader(bytes.NewReader(file), opts...)
+		var ierr error
+		if err != nil {
+			ierr = err
+		} else {
+			_, ierr = rd.Inspect(true)
+		}
+		if (ierr == nil) != (serr == nil) {
+			x.viol("inspect/iff-scan/limits", c, fmt.Sprintf("%s: Inspect err=%v but verifying scan err=%v", tag, ierr, serr), map[string]any{"mode": "stats"})
+		}
+	}
+}
+
 // runStatsIndexDamage: "when the header claims an index, its codec is readable".
 func runStatsIndexDamage(x *acCtx, c *acCase) {
 	if c.A.Ver != 2 || c.A.Idx == "none" || c.A.Npad > 0 {
@@ -1024,6 +1072,14 @@ func runArchiveReplay(args []string) int {
 		defer cl()
 	}
 	rep := newReport("archive/" + mode)
+	if mode == "idx" {
+		// beyond the 2^16 boundary: one archive of 70 000 sections through every index kind
+		for _, v := range bigIndexCases() {
+			rep.violate("index/large/"+v[0], fmt.Sprintf("archive of %d sections: %s", bigSections, v[1]), map[string]any{"family": "big-archive", "sections": bigSections})
+		}
+		rep.eval("big-archive", true)
+		rep.count("large_archive_sections", bigSections)
+	}
 	jobs := make(chan []byte, 256)
 	var wg sync.WaitGroup
 	base := "/dev/shm"
@@ -1058,6 +1114,7 @@ func runArchiveReplay(args []string) int {
 						runStatsCase(x, &c)
 						runStatsIndexDamage(x, &c)
 						runStatsIndexMoved(x, &c)
+						runStatsLimits(x, &c)
 					case "scan":
 						runScanCase(x, &c)
 						runWriteCase(x, &c)
